@@ -64,13 +64,17 @@ func ReadMessage(buf *[]byte, r ByteReadReader, msg proto.Message) error {
 
 	for read != size {
 		n, err := r.Read(b[read:])
+		// A reader may return the last bytes together with io.EOF.
+		read += uint64(n)
 		if err == io.EOF {
-			return fmt.Errorf("unexpected EOF, expected %d more bytes", size)
+			if read == size {
+				break
+			}
+			return fmt.Errorf("unexpected EOF, expected %d more bytes", size-read)
 		}
 		if err != nil {
 			return err
 		}
-		read += uint64(n)
 	}
 	err = proto.Unmarshal(b, msg)
 	if err != nil {
